@@ -9,7 +9,7 @@ git -C /repo worktree add -q --detach "$WT" HEAD || exit 2
 if ! git -C "$WT" apply --3way "$PATCH" 2>/dev/null && ! git -C "$WT" apply "$PATCH"; then
   echo "PATCH DOES NOT APPLY"; git -C /repo worktree remove --force "$WT"; exit 3
 fi
-( cd /verif && VERIF_REPO="$WT" ./vf "$@" )
+( cd /verif && VERIF_REPO="$WT" VERIF_EVIDENCE_DIR=/verif/.work/mutant-evidence VERIF_REPLAY_DIR=/verif/.work/mutant-replay ./vf "$@" )
 rc=$?
 git -C /repo worktree remove --force "$WT"
 exit $rc
